@@ -5,6 +5,7 @@
   `starting_time` of `parse_trace` is 0).
 -/
 import MbVerif.Framework
+import MbVerif.Generated.SimConsts
 import MbVerif.Sim.Heap
 
 namespace Mb.Sim
@@ -42,18 +43,18 @@ structure SimEvent where
   replace : Bool
   deriving Repr, DecidableEq, Inhabited
 
-/-- `event_to_usize` (lib.rs) -/
+/-- `event_to_usize` (lib.rs); the table is regenerated from the source by the translator -/
 def eventToUsize : TEvent → Nat
-  | .tunnelSent => 0
-  | .normalSent => 1
-  | .paddingSent _ => 2
-  | .tunnelRecv => 3
-  | .normalRecv => 4
-  | .paddingRecv => 5
-  | .blockingBegin _ => 6
-  | .blockingEnd => 7
-  | .timerBegin _ => 8
-  | .timerEnd _ => 9
+  | .tunnelSent => Gen.SIM_EV_TunnelSent
+  | .normalSent => Gen.SIM_EV_NormalSent
+  | .paddingSent _ => Gen.SIM_EV_PaddingSent
+  | .tunnelRecv => Gen.SIM_EV_TunnelRecv
+  | .normalRecv => Gen.SIM_EV_NormalRecv
+  | .paddingRecv => Gen.SIM_EV_PaddingRecv
+  | .blockingBegin _ => Gen.SIM_EV_BlockingBegin
+  | .blockingEnd => Gen.SIM_EV_BlockingEnd
+  | .timerBegin _ => Gen.SIM_EV_TimerBegin
+  | .timerEnd _ => Gen.SIM_EV_TimerEnd
 
 /-- `(time, kind)` strictly before, the order underlying `SimEvent::cmp` before `.reverse()` -/
 def keyLt (t1 : Int) (k1 : Nat) (t2 : Int) (k2 : Nat) : Bool :=
